@@ -9,6 +9,7 @@ import (
 	"crypto/ed25519"
 	"fmt"
 	"github.com/brutella/hc/hap"
+	"github.com/brutella/hc/util"
 	"io"
 	"math/rand"
 	"net"
@@ -429,6 +430,7 @@ func pvCorpus() [][]pvStep {
 
 func checkC03(c *Ctx) {
 	c03Handover(c)
+	c03Revocation(c)
 	c.SetRule("histories of 1-10 symbolic pair-verify messages on 1-2 interleaved connections with a pairing store that changes between messages " +
 		"(alphabet: start with good / wrong-length key; finish genuine, unknown name, entity without key, stored key ≠ signer, garbage/empty signature, " +
 		"signature over stale/zero ephemeral key, other name, other connection's accessory key; sealed under zero / random / other exchange's / other connection's key; " +
@@ -595,7 +597,9 @@ type hoConn struct {
 	closed  bool
 }
 
-func newHoConn() *hoConn { return &hoConn{wake: make(chan struct{}, 64), started: make(chan struct{}, 64)} }
+func newHoConn() *hoConn {
+	return &hoConn{wake: make(chan struct{}, 64), started: make(chan struct{}, 64)}
+}
 func (h *hoConn) Read(b []byte) (int, error) {
 	h.started <- struct{}{}
 	deadline := time.After(3 * time.Second)
@@ -881,4 +885,124 @@ func c03Handover(c *Ctx) {
 		}
 		c.Count(fmt.Sprint(ops), true, "stream:handover", "handover:"+kind, "handover-impl:"+impl)
 	})
+}
+
+// ---- revocation and key replacement under interleaved lookups ------------------------------------------------------------
+
+// hookStorage runs a callback at the two boundaries of every storage operation.
+type hookStorage struct {
+	util.Storage
+	hook func(point string)
+}
+
+func (h *hookStorage) at(p string) {
+	if h.hook != nil {
+		h.hook(p)
+	}
+}
+func (h *hookStorage) Set(k string, v []byte) error {
+	h.at("before Set")
+	err := h.Storage.Set(k, v)
+	h.at("after Set")
+	return err
+}
+func (h *hookStorage) Delete(k string) error {
+	h.at("before Delete")
+	err := h.Storage.Delete(k)
+	h.at("after Delete")
+	return err
+}
+func (h *hookStorage) Get(k string) ([]byte, error) {
+	h.at("before Get")
+	b, err := h.Storage.Get(k)
+	h.at("after Get")
+	return b, err
+}
+
+// c03Revocation: "the long-term key STORED for the claimed controller name". A pairing is removed (or its key replaced)
+// while another connection's pair-verify looks the same controller up; the second operation runs in full at every storage
+// boundary of the first (both orders). Once both have returned, the store is what the later of the two says — a removed
+// controller no longer verifies, a replaced key verifies and the old one does not — whatever the interleaving was.
+func c03Revocation(c *Ctx) {
+	type opfn func(f *accFixture, name string, k2 *refIdentity)
+	lookup := func(f *accFixture, name string, _ *refIdentity) { f.db.EntityWithName(name) }
+	remove := func(f *accFixture, name string, _ *refIdentity) { f.db.DeleteEntity(db.NewEntity(name, nil, nil)) }
+	replace := func(f *accFixture, name string, k2 *refIdentity) { f.db.SaveEntity(db.NewEntity(name, k2.Pub, nil)) }
+	list := func(f *accFixture, name string, _ *refIdentity) { f.db.Entities() }
+	type pairing struct {
+		a, b   string
+		fa, fb opfn
+		final  string // removed | replaced
+	}
+	pairs := []pairing{
+		{"lookup", "remove", lookup, remove, "removed"}, {"remove", "lookup", remove, lookup, "removed"},
+		{"lookup", "replace", lookup, replace, "replaced"}, {"replace", "lookup", replace, lookup, "replaced"},
+		{"list", "remove", list, remove, "removed"}, {"remove", "list", remove, list, "removed"},
+	}
+	for pi, p := range pairs {
+		for point := 0; point < 8; point++ {
+			id := fmt.Sprintf("revocation#%s-inside-%s.%d", p.b, p.a, point)
+			if c.Skip(id) {
+				continue
+			}
+			r := c.CaseRng("revocation", pi*10+point)
+			hs := &hookStorage{}
+			sw := accessory.NewSwitch(accessory.Info{Name: "R"})
+			f, err := newAccFixtureOpt(c, "00102003", func(s util.Storage) util.Storage { hs.Storage = s; return hs }, nil, sw.Accessory)
+			if err != nil {
+				c.Violate("fixture cannot be built", id, nil, "fixture", err.Error())
+				return
+			}
+			name := fmt.Sprintf("ctrl-%d", r.Intn(1000))
+			k1, k2 := newRefIdentity(r, name), newRefIdentity(r, name)
+			f.db.SaveEntity(db.NewEntity(name, k1.Pub, nil))
+			f.db.EntityWithName(name) // a lookup before: whatever the database remembers about this name, it has it now
+			n, where := 0, ""
+			fired := false
+			hs.hook = func(pt string) {
+				if fired {
+					return
+				}
+				if n == point {
+					fired = true
+					where = pt
+					p.fb(f, name, k2)
+				}
+				n++
+			}
+			p.fa(f, name, k2)
+			hs.hook = nil
+			if !fired {
+				f.Close()
+				continue // operation A has fewer boundaries than `point`
+			}
+			in := map[string]interface{}{"first_operation": p.a, "second_operation_runs_in_full": where + fmt.Sprintf(" (boundary %d of the first)", point), "second_operation": p.b}
+			ent, lerr := f.db.EntityWithName(name)
+			verifies := func(idn *refIdentity, addr string) bool {
+				vr := refPairVerify(r, f.Post(addr), idn, f.device.PublicKey())
+				return vr.Shared != nil
+			}
+			switch p.final {
+			case "removed":
+				if lerr == nil {
+					c.Violate("a removed pairing is still found by name after the removal has returned", id, in, "not found", "key "+hx(ent.PublicKey))
+				}
+				if verifies(k1, "10.0.6.1:9000") {
+					c.Violate("a controller whose pairing was removed still completes pair-verify (its key is no longer stored)", id, in, "error", "verified")
+				}
+			case "replaced":
+				if lerr != nil || !bytes.Equal(ent.PublicKey, k2.Pub) {
+					c.Violate("a replaced long-term key is not what a lookup returns after the replacement has returned", id, in, hx(k2.Pub), fmt.Sprint(lerr, hx(ent.PublicKey)))
+				}
+				if verifies(k1, "10.0.6.1:9000") {
+					c.Violate("pair-verify succeeds with a long-term key that is no longer the one stored for the name", id, in, "error", "verified")
+				}
+				if !verifies(k2, "10.0.6.2:9000") {
+					c.Violate("pair-verify fails with the long-term key stored for the name", id, in, "verified", "error")
+				}
+			}
+			c.Count(id, true, "stream:revocation", "revocation:"+p.b+" inside "+p.a+" @ "+where)
+			f.Close()
+		}
+	}
 }
